@@ -289,7 +289,7 @@ def run(chk: core.Check):
     chk.assumptions += ["scipy's seeded multivariate_normal.rvs is reproducible (checked by calling twice)",
                         "placement compared under 1e-12 relative tolerance (one float multiply-add per entry)"]
     rng = core.rng_for(chk.seed, "C18/gen")
-    cases = [gen_case(rng, 30) for _ in range(N)]
+    cases = core.Gen(gen_case, rng, 30, N)
     res = chk.run_stream("gen", cases, impl, oracle=oracle, site="generate_*",
                          nontrivial=lambda c, r: r.get("outcome") == "ok" and len(seg_params(c)) >= 2,
                          describe=lambda c: c)
